@@ -61,7 +61,8 @@ def main():
             print(pid, "exit", r.returncode, "violations", len(viol), kinds[:4], f"{time.time() - t:.0f}s")
     finally:
         sh(f"git -C /repo worktree remove --force {wt}")
-        sh(f"cd {V} && {PY} harness/translators.py && rm -rf replays")
+        if pids:
+            sh(f"cd {V} && {PY} harness/translators.py && rm -rf replays")
         json.dump(meta, open(meta_path, "w"), indent=1)
 
 
